@@ -244,3 +244,81 @@ def inf_norm(vs):
     for v in vs:
         r = smax(r, sabs(v))
     return r
+
+
+def make_point_problem(E, var_kinds, cons_kinds, fmt="coo", tag=""):
+    """Problem for the polynomial (NRA) harnesses: no uninterpreted functions.  Every distinct
+    evaluation point (syntactic identity of its coordinates) gets fresh symbols f, g, c, J and a
+    Lagrangian Hessian with the structure every Lagrangian Hessian has,
+    H(x, y) = H0(x) + sum_i y_i H_i(x)  (symmetric symbol matrices), so the multiplier at which
+    the code requests the Hessian is visible as a different polynomial."""
+    Problem = boot.mod("problem").Problem
+    n, m = len(var_kinds), len(cons_kinds)
+    xl, xu = bounds(E, var_kinds, tag + "x")
+    cl, cu = bounds(E, cons_kinds, tag + "c")
+    points = []
+    calls = []
+
+    def key(x):
+        its = items(x)
+        if boot.MODE == "sym":
+            return [core.zexpr(v) for v in its]
+        return [float(v) for v in its]
+
+    def lookup(x):
+        k = key(x)
+        for pk, rec in points:
+            if len(pk) == len(k) and all((a.eq(b) if boot.MODE == "sym" else a == b) for a, b in zip(pk, k)):
+                return rec
+        p = len(points)
+        rec = dict(
+            id=p,
+            f=E.real(f"{tag}f@{p}"),
+            g=[E.real(f"{tag}g{j}@{p}") for j in range(n)],
+            c=[E.real(f"{tag}c{i}@{p}") for i in range(m)],
+            J=[[E.real(f"{tag}J{i}_{j}@{p}") for j in range(n)] for i in range(m)],
+            H=[[[None] * n for _ in range(n)] for _ in range(m + 1)],
+        )
+        for q in range(m + 1):
+            for a in range(n):
+                for b in range(a, n):
+                    v = E.real(f"{tag}H{q}_{a}_{b}@{p}")
+                    rec["H"][q][a][b] = v
+                    rec["H"][q][b][a] = v
+        points.append((k, rec))
+        return rec
+
+    def hess(rec, ys):
+        return [[rec["H"][0][a][b] + sum((ys[i] * rec["H"][i + 1][a][b] for i in range(m)), 0.0) for b in range(n)] for a in range(n)]
+
+    class P(Problem):
+        def __init__(self):
+            kw = dict(cons_lb=arr(cl), cons_ub=arr(cu)) if m else {}
+            super().__init__(arr(xl), arr(xu), **kw)
+
+        def obj(self, x):
+            calls.append(("obj", items(x), None))
+            return lookup(x)["f"]
+
+        def obj_grad(self, x):
+            calls.append(("obj_grad", items(x), None))
+            return arr(lookup(x)["g"])
+
+        def cons(self, x):
+            calls.append(("cons", items(x), None))
+            return arr(lookup(x)["c"])
+
+        def cons_jac(self, x):
+            calls.append(("cons_jac", items(x), None))
+            r = lookup(x)
+            return make_sparse(fmt, (m, n), [(i, j, r["J"][i][j]) for i in range(m) for j in range(n)])
+
+        def lag_hess(self, x, y):
+            calls.append(("lag_hess", items(x), items(y)))
+            r = lookup(x)
+            Hm = hess(r, items(y))
+            return make_sparse(fmt, (n, n), [(a, b, Hm[a][b]) for a in range(n) for b in range(n)])
+
+    p = P()
+    spec = dict(n=n, m=m, xl=xl, xu=xu, cl=cl, cu=cu, calls=calls, lookup=lookup, hess=hess, var_kinds=var_kinds, cons_kinds=cons_kinds, tag=tag)
+    return p, spec
